@@ -184,7 +184,7 @@ pub fn run(ctx: &mut Ctx) {
     ctx.check(
         "random",
         "multisets of 0..10 addresses (host+transport[+relay][+p2p]) from the C09 alphabet; non-trivial = >=2 groups present and >=1 DNS-only address; distinct by case hash",
-        ctx.n(6_000, 300_000),
+        ctx.n(100_000, 3_000_000),
         &|| proptest::collection::vec(c09_addr(), 0..=10).prop_map(|addrs| Case { addrs }).boxed(),
         &check,
     );
